@@ -51,7 +51,7 @@ def feedValue (ct : ConvTable) (oldCols : List ColDef) (row : Row) (f : ColDef Ã
   | some e =>
     let v := evalExpr ct oldCols row e
     if srcType oldCols e.base == some f.1.ty then v else convert ct f.1.ty false v
-  | none => f.1.dval
+  | none => convert ct f.1.ty false f.1.dval     -- the column default, stored into the column's (final) declared type
 
 def project (ct : ConvTable) (oldCols : List ColDef) (feeds : List (ColDef Ã— Option Expr)) (row : Row) : Row :=
   feeds.map (feedValue ct oldCols row)
